@@ -45,7 +45,7 @@ PROPS["C02"] = dict(
          "full=0: echelon shape + same row space; top-reduction of a directly generated row echelon form == RREF; distinct = (build, route, full, k, "
          "heuristic, shape class, input kind); non-trivial = rank > 0 and profile != (0,1,2,..)",
     assumptions=MODEL,
-    stages=FUNC("ech", (11200, 300), (50000, 1000), (2800, 400), (15000, 1500), (2800, 250), (15000, 800)),
+    stages=FUNC("ech", (11200, 300), (150000, 1000), (2800, 400), (45000, 1500), (2800, 250), (45000, 800)),
 )
 PROPS["C03"] = dict(
     level="exploration",
@@ -53,7 +53,7 @@ PROPS["C03"] = dict(
          "rank profile, storage outside L/U zero, P*L*U*Q (P*L*E) == A reconstructed in the model; distinct = (build, route, base/recursive, k, shape class, "
          "input kind); non-trivial = 0 < r < min(m,n) or gapped profile",
     assumptions=MODEL + ["PLE storage is read the way mzd_echelonize_pluq reads it (row i: columns <= i cleared, column Q[i] set); stored diagonals are not read"],
-    stages=FUNC("ple", (9600, 300), (40000, 1100), (2400, 400), (10000, 1500), (2400, 250), (10000, 800)),
+    stages=FUNC("ple", (9600, 300), (120000, 1100), (2400, 400), (30000, 1500), (2400, 250), (30000, 800)),
     require_tags={"quick": ["ple_recursive"], "thorough": ["ple_recursive"]},
 )
 PROPS["C04"] = dict(
@@ -61,7 +61,7 @@ PROPS["C04"] = dict(
     rule="case = (variant, n, width, T with junk in the unused triangle, B pattern, cutoff); oracle: That*X == B0 (left) / X*That == B0 (right) with That the named "
          "unit triangle, T bit-identical afterwards; distinct = (build, variant, regime base/russian/recursive, shape class, B pattern); non-trivial = n>1, That != I, B != 0",
     assumptions=MODEL,
-    stages=FUNC("trsm", (9600, 330), (40000, 900), (2000, 400), (10000, 2100), (2400, 300), (10000, 700)),
+    stages=FUNC("trsm", (9600, 330), (120000, 900), (2000, 400), (30000, 2100), (2400, 300), (30000, 700)),
     require_tags={"quick": ["trsm_base", "trsm_russian", "trsm_recursive"], "thorough": ["trsm_base", "trsm_russian", "trsm_recursive"]},
 )
 PROPS["C05"] = dict(
@@ -69,7 +69,7 @@ PROPS["C05"] = dict(
     rule="case = (route, n, invertible A = P*L*U or unit upper triangular U, k, destination NULL/dirty); oracle: A*B == B*A == I in the model, A unchanged; "
          "trtri: result unit upper triangular and U0*result == I; distinct = (build, route, k, size class, regime); non-trivial = n > 1",
     assumptions=MODEL,
-    stages=FUNC("inv", (4500, 400), (20000, 900), (900, 300), (5000, 1200), (900, 200), (5000, 600)),
+    stages=FUNC("inv", (4500, 400), (60000, 900), (900, 300), (15000, 1200), (900, 200), (15000, 600)),
     require_tags={"quick": ["trtri_recursive"], "thorough": ["trtri_recursive"]},
 )
 PROPS["C06"] = dict(
@@ -78,7 +78,7 @@ PROPS["C06"] = dict(
          "column | a single one in a padding row (first/second/last)); oracle: verdict == (rank[Ah] == rank[Ah|B]) with Ah = A padded to max(m,n) rows, and A*X == B "
          "when 0; distinct = (build, route, rhs kind, m<n/m=n/m>n, size classes, input kind); non-trivial = A rank deficient or verdict -1",
     assumptions=MODEL,
-    stages=FUNC("solve", (8000, 220), (40000, 700), (1600, 300), (8000, 1200), (1600, 200), (8000, 500)),
+    stages=FUNC("solve", (8000, 220), (120000, 700), (1600, 300), (24000, 1200), (1600, 200), (24000, 500)),
     require_tags={"quick": ["rhs_padrow-first", "rhs_outside-colspace", "verdict_inconsistent", "verdict_solvable"],
                   "thorough": ["rhs_padrow-first", "rhs_outside-colspace", "verdict_inconsistent", "verdict_solvable"]},
 )
@@ -87,7 +87,7 @@ PROPS["C07"] = dict(
     rule="case = (m,n, A by rank profile/pattern, cutoff); oracle: NULL iff model rank == n, else n x (n-r), A0*K == 0, rank(K) == n-r; distinct = (build, shape "
          "class, input kind); non-trivial = 0 < r < n",
     assumptions=MODEL,
-    stages=FUNC("kernel", (6000, 300), (30000, 900), (1200, 400), (6000, 1300), (1200, 200), (6000, 600)),
+    stages=FUNC("kernel", (6000, 300), (90000, 900), (1200, 400), (18000, 1300), (1200, 200), (18000, 600)),
     require_tags={"quick": ["kernel_trivial", "kernel_proper"], "thorough": ["kernel_trivial", "kernel_proper", "kernel_all"]},
 )
 PROPS["C13"] = dict(
@@ -97,7 +97,7 @@ PROPS["C13"] = dict(
          "shape class); non-trivial = result differs from input",
     assumptions=MODEL + ["mzd_apply_p_right_even_capped is only exercised with start_col = 0 (its start_col semantics for the non-transposed variant are not stated)",
                          "mzd_and_bits is not exercised (not named by the property)"],
-    stages=FUNC("rowcol", (18000, 330), (200000, 700), (4500, 330), (40000, 1500), (4500, 200), (40000, 500)),
+    stages=FUNC("rowcol", (18000, 330), (400000, 700), (4500, 330), (80000, 1500), (4500, 200), (80000, 500)),
 )
 PROPS["C17"] = dict(
     level="exploration",
@@ -105,7 +105,7 @@ PROPS["C17"] = dict(
          "zero-tail matrices, pivot search starts incl. last word/last 64 columns); oracle: model predicates; distinct = (build, observer, content class, shape class); "
          "non-trivial = inputs differ in exactly one bit / region's first one is placed by the generator",
     assumptions=MODEL,
-    stages=FUNC("obs", (24000, 300), (300000, 700), (4500, 300), (40000, 1200), (4500, 200), (40000, 400),
+    stages=FUNC("obs", (24000, 300), (600000, 700), (4500, 300), (80000, 1200), (4500, 200), (40000, 400),
                 extra=[S("small-asan", "func", ["--fam", "obs", "--policy", "win"], (6000, 200), (150000, 500))]),
 )
 PROPS["C08"] = dict(
@@ -113,7 +113,7 @@ PROPS["C08"] = dict(
     rule="case = (operation, shape, pattern dense/ones/single/..., destination NULL/dirty/aliased); oracle: entry-wise model; transpose twice == original; "
          "distinct = (build, operation, kernel/width/path class, shape residues, pattern, destination kind); non-trivial = matrix != 0 and shape != 1x1",
     assumptions=MODEL,
-    stages=FUNC("move", (18000, 200), (150000, 900), (3600, 800), (30000, 2100), (3600, 150), (30000, 600)),
+    stages=FUNC("move", (18000, 200), (300000, 900), (3600, 800), (60000, 2100), (3600, 150), (60000, 600)),
     require_tags={"quick": ["transpose_le8", "transpose_le16", "transpose_le32", "transpose_lt64", "transpose_block", "transpose_split64", "transpose_split512",
                             "submatrix_aligned", "submatrix_unaligned"],
                   "thorough": ["transpose_le8", "transpose_split512", "submatrix_unaligned"]},
